@@ -591,6 +591,12 @@ namespace bluetoe {
                     return;
                 }
             }
+
+            // The indication was taken out of the queue, but is not transmitted (client not subscribed, buffer
+            // too small, value not readable): no Handle Value Confirmation will ever arrive for it. Without
+            // this, all further indications on this connection would be blocked.
+            if ( pending.first == details::notification_queue_entry_type::indication )
+                connection.indication_confirmed();
         }
 
         out_size = 0;
